@@ -1,6 +1,6 @@
 """Texts for MANIFEST.json (level claimed, trusted base, technique) per property."""
 
-HOOK_COMMITS = []
+HOOK_COMMITS = ["ecd4ccc"]
 
 NOT_APPLICABLE = {}
 
@@ -107,4 +107,11 @@ META = {
                     "monotone / onto / start-speed bound with library assertions active.",
             "note": "Spline evaluation is trusted as judged by C12; the statement's 1e-6 (constraints) and 1e-9 (poses) are used verbatim. Sampled executions only.",
             "technique": "runtime monitoring: specification monitors with independent constraint/word oracles, ASan/UBSan + active library asserts"},
+    "C15": {"text": "Exploration over histories with shadow execution: random programs over a register file and homogeneous chains up to 1e5 operations "
+                    "are replayed on long-double matrices; after every operation the touched element is checked to be finite, unit to (n+1) 1e-14, "
+                    "canonical (q_w >= 0) and within (n+1) 1e-13 of the shadow; constant-velocity integration through six odeint steppers and three "
+                    "driver functions against x0 exp(T v), with every intermediate stage value observed through the SMOOTH_VERIF hook in the adaptor.",
+            "note": "n is the number of operations executed so far in the program (the weakest reading of the bound). Shadow exponentials by scaling and squaring in "
+                    "long double; hook H3 (compat/odeint.hpp) only observes. Sampled histories only.",
+            "technique": "runtime monitoring: shadow execution (history + executable model) with invariant checks at an instrumentation hook, ASan/UBSan"},
 }
